@@ -312,6 +312,16 @@ func init() {
 			specs = append(specs, collEventSpecs(r, []string{"crash", "ev:commit1"}, 1, 6)...)
 		}
 		r.ExploreSpecs(specs)
+		// a write set containing a slab that cannot be encoded (inline value / large value in its own slab): the
+		// commit must not report success; after the caller removes the value the next commit recovers normally
+		r.RunTaskGroup("commits of a write set with an unencodable value (inline / own slab) x commit kind x workers", "encfail", encFailArgs())
+		// registers far beyond the size-limited range (a collision group's own slab has no size limit): one group of
+		// 258 keys with 400-byte values (> 64 KiB), committed, reopened on a fresh storage, changed, committed again
+		var big []any
+		for shape := 0; shape < 3; shape++ {
+			big = append(big, collDeepArg{T: 1024, Shape: shape, N: 258, Big: true})
+		}
+		r.RunTaskGroup("collision group slab beyond 64 KiB: commit, recovery, further commits", "colldeep", big)
 	}})
 	RegisterCheck(&CheckDef{ID: "C08", Level: "model_checking", Run: func(r *Run) {
 		r.Rule = "explicit-state BFS over histories with the events commit, commit+drop-cache and commit+reopen-from-ledger as alphabet operations (every placement of events between operations; the commit is the deterministic one or the order-relaxed one); differential oracle on every visited state: per-operation results equal those of the same history replayed without any event, content equals the model, final registers byte-identical to the event-free twin (content-equal when compact maps occur), structure valid after final reopen"
